@@ -228,8 +228,8 @@ func runServe(fields []string) string {
 				}
 				if got.Host != "origin.test" || got.Scheme != "http" || got.Fragment != "" {
 					bad("Location %q leaves the origin: %q", loc, got.String())
-				} else if got.Path != adj || got.RawQuery != query {
-					bad("Location %q resolves to path %q query %q, want %q %q", loc, got.Path, got.RawQuery, adj, query)
+				} else if got.Path != adj || got.RawQuery != escNonASCII(query) {
+					bad("Location %q resolves to path %q query %q, want %q %q", loc, got.Path, got.RawQuery, adj, escNonASCII(query))
 				} else if u2, err2 := url.ParseRequestURI(got.RequestURI()); err2 != nil {
 					bad("Location %q resolves to an unparsable target %q", loc, got.RequestURI())
 				} else {
@@ -417,7 +417,7 @@ func genServe(r *Rng, tier string, n int, emit func(string)) {
 			}
 			query := ""
 			if cr.Chance(20) {
-				query = Pick(cr, []string{"q=1", "q=1&r=a/b", "x=%2F&y=%C3%A9", "a=b?c"})
+				query = Pick(cr, []string{"q=1", "q=1&r=a/b", "x=%2F&y=%C3%A9", "a=b?c", "q=\xc3\xa9", "\xff=1&z=\x80%41"})
 			}
 			// the wire form of the target: usually the default encoding of the decoded path; sometimes a raw target with
 			// its own escapes (encoded dots and slashes, lower-case hex, needless escapes) and bytes that are not a valid
@@ -447,4 +447,18 @@ func genServe(r *Rng, tier string, n int, emit func(string)) {
 		}
 		emit("serve\t" + cfg + "\t" + strings.Join(routes, ";") + "\t" + strings.Join(reqs, ";"))
 	}
+}
+
+// escNonASCII is the query string as it can travel in a header: bytes outside ASCII percent-encoded (the same query for
+// every consumer that decodes it), everything else unchanged.
+func escNonASCII(s string) string {
+	var sb strings.Builder
+	for i := 0; i < len(s); i++ {
+		if s[i] >= 0x80 {
+			sb.WriteString(fmt.Sprintf("%%%02x", s[i]))
+		} else {
+			sb.WriteByte(s[i])
+		}
+	}
+	return sb.String()
 }
